@@ -52,7 +52,8 @@ static size_t idxOf(const J &j) {
         if (j.s == "2^64-1") return SIZE_MAX;
         return static_cast<size_t>(strtoull(j.s.c_str(), 0, 10));
     }
-    if (j.i < 0) return SIZE_MAX;
+    if (j.i == -2) return static_cast<size_t>(4294967296ULL);   // token for 2^32 (TLC integers are 32 bit)
+    if (j.i < 0) return SIZE_MAX;                               // -1: token for 2^64-1 (and "append" for frame())
     return static_cast<size_t>(j.i);
 }
 
@@ -313,7 +314,9 @@ static bool replayCase(const J &c, long long caseNo, long long &steps) {
         std::vector<J> d; jdiff(c.at("post"), post, "", d, 6);
         for (size_t i = 0; i < d.size(); ++i) { d[i].set("k", "post"); diffs.push_back(d[i]); }
     }
-    if (c.has("res") && ev.has("res")) {
+    const bool isGet = op.at("op").s == "Get";
+    if (!isGet) { /* only look-ups have a result */ }
+    else if (c.has("res") && ev.has("res")) {
         std::vector<J> d; jdiff(c.at("res"), ev.at("res"), "res", d, 4);
         for (size_t i = 0; i < d.size(); ++i) { d[i].set("k", "res"); diffs.push_back(d[i]); }
     } else if (c.has("res") && out == "ok")
